@@ -160,7 +160,11 @@ func (tff tagFamilyFilter) unmarshal(tagFamilyMetadataBlock *dataBlock, metaRead
 			encodeTypeBuf := make([]byte, 1)
 			fs.MustReadData(tagValueReader, int64(tm.offset), encodeTypeBuf)
 			encodeType := encoding.EncodeType(encodeTypeBuf[0])
-			if encodeType == encoding.EncodeTypeDictionary {
+			// A dictionary of an array-typed tag holds whole serialized arrays: it cannot answer whether a
+			// single element occurs (DictionaryFilter.MightContain reports false for array types), so it must
+			// not be used to prune; leave the filter unset, which never skips the block.
+			isArr := tm.valueType == pbv1.ValueTypeStrArr || tm.valueType == pbv1.ValueTypeInt64Arr
+			if encodeType == encoding.EncodeTypeDictionary && !isArr {
 				bb.Buf = pkgbytes.ResizeExact(bb.Buf[:0], int(tm.size))
 				fs.MustReadData(tagValueReader, int64(tm.offset), bb.Buf)
 				dictValues, err := encoding.DecodeDictionaryValues(bb.Buf[1:])
